@@ -18,7 +18,7 @@ Definition FILE_BYTES (P : params) : N := BS P * NB P.
 
 (* io::ErrorKind as seen by the harness *)
 Inductive ioerr := IoUnexpectedEof | IoAlreadyExists | IoNotFound
-                 | IoPermissionDenied | IoOther | IoInterrupted.
+                 | IoPermissionDenied | IoOther | IoInterrupted | IoIsADirectory.
 
 Inductive res (A : Type) := Ok (a : A) | Err (e : ioerr).
 Arguments Ok {A} a.
